@@ -400,11 +400,11 @@ func (e *Exec) extractModel(cond *Term) []ReplayVal {
 		for _, p := range e.pc {
 			s.Assert(p)
 		}
-		e.ufConstraints(s)
 		s.Assert(cond)
 		for _, x := range extra {
 			s.Assert(x)
 		}
+		e.ufConstraints(s)
 		return s
 	}
 	var extra []*Term
